@@ -26,6 +26,9 @@ pub const XL_MAX_K: u32 = 1300;
 const STREAM_XL: u64 = 777;
 pub const XXL_MAX_K: u32 = 9000;
 const STREAM_XXL: u64 = 7777;
+/// giant blocks (20000..56403 symbols, the largest the code supports): release builds, a handful
+pub const GIANT_MAX_K: u32 = 56403;
+const STREAM_GIANT: u64 = 77777;
 /// medium band 121..180 for all four builds (the checked builds cost seconds per scenario here)
 pub const MEDIUM_MAX_K: u32 = 180;
 const STREAM_MEDIUM: u64 = 70;
@@ -47,7 +50,18 @@ pub fn knob_b(setup: &Setup, seed: u64) -> Setup {
     let supported: Vec<Kernel> = levels.iter().copied().filter(|k| kernel_supported(*k)).collect();
     s.kernel = *r.pick(&supported);
     for c in s.replicas.iter_mut() {
-        *c = match r.below(6) {
+        // mostly the opposite family (plan replay <-> direct solve), sometimes anything
+        let direct = matches!(c, Ctor::Unplanned { .. });
+        let pick = if r.chance(2, 3) {
+            if direct {
+                r.below(4)
+            } else {
+                4
+            }
+        } else {
+            r.below(6)
+        };
+        *c = match pick {
             0 => Ctor::New,
             1 => Ctor::Plan,
             2 => Ctor::PlanShared,
@@ -551,8 +565,23 @@ pub fn run(ctx: &Ctx) -> i32 {
         }
     };
 
+    // giant stream (20000 <= K <= 56403, one block): release flavours only
+    let n_giant = ctx.runs(6, 80);
+    let hg = {
+        let (b, seed) = (nostd_bin.clone(), ctx.seed);
+        std::thread::spawn(move || remote_digests(&b, seed, STREAM_GIANT, 0, n_giant, GIANT_MAX_K, wshare))
+    };
+    let (acc_giant, fail_giant) = local_stream(ctx, STREAM_GIANT, n_giant, GIANT_MAX_K, wshare);
+    let remote_giant = match hg.join().unwrap() {
+        Ok(m) => m,
+        Err(e) => {
+            eprintln!("HARNESS-ERROR: {e}");
+            return 2;
+        }
+    };
+
     // ---- knob divergence inside this binary
-    for (stream, fail) in [(STREAM_SMALL, fail_small), (STREAM_MEDIUM, fail_medium), (STREAM_LARGE, fail_large), (STREAM_XL, fail_xl), (STREAM_XXL, fail_xxl)] {
+    for (stream, fail) in [(STREAM_SMALL, fail_small), (STREAM_MEDIUM, fail_medium), (STREAM_LARGE, fail_large), (STREAM_XL, fail_xl), (STREAM_XXL, fail_xxl), (STREAM_GIANT, fail_giant)] {
         if let Some((run, d)) = fail {
             if violations.is_empty() {
                 violations.push(report_divergence(
@@ -571,7 +600,7 @@ pub fn run(ctx: &Ctx) -> i32 {
             }
         }
     }
-    comparisons += acc_small.runs + acc_medium.runs + acc_large.runs + acc_xl.runs + acc_xxl.runs;
+    comparisons += acc_small.runs + acc_medium.runs + acc_large.runs + acc_xl.runs + acc_xxl.runs + acc_giant.runs;
 
     // ---- cross-build comparison, and knob divergence inside the other binaries
     let mut check_remote = |name: &str, bin: &str, m: &BTreeMap<u64, (String, String, String)>, local: &BTreeMap<u64, String>, stream: u64, max_k: u32, violations: &mut Vec<Violation>| {
@@ -601,6 +630,7 @@ pub fn run(ctx: &Ctx) -> i32 {
     check_remote("release-nostd", &nostd_bin, &remote_large, &acc_large.digests, STREAM_LARGE, LARGE_MAX_K, &mut violations);
     check_remote("release-nostd", &nostd_bin, &remote_xl, &acc_xl.digests, STREAM_XL, XL_MAX_K, &mut violations);
     check_remote("release-nostd", &nostd_bin, &remote_xxl, &acc_xxl.digests, STREAM_XXL, XXL_MAX_K, &mut violations);
+    check_remote("release-nostd", &nostd_bin, &remote_giant, &acc_giant.digests, STREAM_GIANT, GIANT_MAX_K, &mut violations);
 
     // ---- seeded hazards (ESIs where Rand's 32-bit additions wrap), all flavours
     let hz = hazards();
@@ -641,11 +671,13 @@ pub fn run(ctx: &Ctx) -> i32 {
     faults.merge(&acc_large.faults);
     faults.merge(&acc_xl.faults);
     faults.merge(&acc_xxl.faults);
+    faults.merge(&acc_giant.faults);
     let mut kernels = acc_small.kernels.clone();
     kernels.merge(&acc_medium.kernels);
     kernels.merge(&acc_large.kernels);
     kernels.merge(&acc_xl.kernels);
     kernels.merge(&acc_xxl.kernels);
+    kernels.merge(&acc_giant.kernels);
     for k in ["kernel_auto", "kernel_portable", "kernel_ssse3", "kernel_avx2", "kernel_avx512"] {
         kernels.touch(k);
     }
@@ -654,6 +686,7 @@ pub fn run(ctx: &Ctx) -> i32 {
     kv.merge(acc_large.knob_vectors.clone());
     kv.merge(acc_xl.knob_vectors.clone());
     kv.merge(acc_xxl.knob_vectors.clone());
+    kv.merge(acc_giant.knob_vectors.clone());
     let wall = t0.elapsed().as_secs_f64();
     let mut samples = acc_small.samples.clone();
     samples.extend(acc_large.samples.clone());
@@ -662,9 +695,9 @@ pub fn run(ctx: &Ctx) -> i32 {
         ctx,
         &Evidence {
             level: "exploration",
-            evaluations: (acc_small.runs * 8) + (acc_medium.runs * 8) + (acc_large.runs * 4) + (acc_xl.runs * 4) + (acc_xxl.runs * 4) + hazards_run.len() as u64 * 4,
+            evaluations: (acc_small.runs * 8) + (acc_medium.runs * 8) + (acc_large.runs * 4) + (acc_xl.runs * 4) + (acc_xxl.runs * 4) + (acc_giant.runs * 4) + hazards_run.len() as u64 * 4,
             distinct_nontrivial: kv.len() as u64,
-            rule: "one evaluation = one execution of a seeded transfer scenario in one environment (build flavour x knob vector); every scenario of the K<=120 stream and of the medium stream (one block of 121..180 symbols) runs in 4 builds x 2 knob vectors, every scenario of the K<=400 stream and of the extra-large streams (one block of 700..1300 and of 3000..9000 symbols) in the 2 release builds x 2 knob vectors; transcripts (OTI bytes, every packet emitted, every receiver outcome after every delivery) must be identical. distinct_nontrivial = distinct knob vectors (kernel level, per-replica construction/plan source/encoder threshold, per-receiver decoder threshold) exercised in this binary; each is combined with 4 (resp. 2) build flavours".into(),
+            rule: "one evaluation = one execution of a seeded transfer scenario in one environment (build flavour x knob vector); every scenario of the K<=120 stream and of the medium stream (one block of 121..180 symbols) runs in 4 builds x 2 knob vectors, every scenario of the K<=400 stream and of the extra-large streams (one block of 700..1300, of 3000..9000 and of 20000..56403 symbols) in the 2 release builds x 2 knob vectors; transcripts (OTI bytes, every packet emitted, every receiver outcome after every delivery) must be identical. distinct_nontrivial = distinct knob vectors (kernel level, per-replica construction/plan source/encoder threshold, per-receiver decoder threshold) exercised in this binary; each is combined with 4 (resp. 2) build flavours".into(),
             samples,
             extra: json!({
                 "scenarios_small_stream": acc_small.runs,
@@ -672,6 +705,7 @@ pub fn run(ctx: &Ctx) -> i32 {
                 "scenarios_large_stream": acc_large.runs,
                 "scenarios_xl_stream": acc_xl.runs,
                 "scenarios_xxl_stream_3000_to_9000_symbols": acc_xxl.runs,
+                "scenarios_giant_stream_20000_to_56403_symbols": acc_giant.runs,
                 "transcript_comparisons": comparisons,
                 "events_executed_in_this_binary": acc_small.events + acc_large.events + acc_xl.events,
                 "simulated_ticks": acc_small.ticks + acc_large.ticks + acc_xl.ticks,
